@@ -6,7 +6,11 @@
 #include <stdio.h>
 
 // where the shared objects are (everything else the call-outs see is dropped)
-void vt_layout(void* ring, size_t ring_size, void* write_head, void* read_head, void* buf, size_t buf_size);
+// buf_alloc = bytes actually allocated for the buffer, buf_logical = the ring's size (2^k): an access the code
+// makes to [buf, buf+logical+slack) outside [buf, buf+alloc) is out of bounds: it is logged, NOT performed by
+// verif_memcpy, and reported by vt_oob()
+void vt_layout(void* ring, size_t ring_size, void* write_head, void* read_head, void* buf, size_t buf_alloc, size_t buf_logical);
+int  vt_oob(void); // 1 if an out-of-bounds buffer access was seen since the last call (clears the flag)
 
 // ---- trace mode: accesses are performed for real and logged
 void vt_off(void);
